@@ -41,7 +41,7 @@ def drive (fs : List (String × String)) : String :=
       let plan : Plan := { per := per, order := order, raiseAt := raiseAt, idelay := idelay, tail := tail }
       let s0 : St := { maxb := maxb, maxc := maxc, bt := bt, ret := ret, plan := plan }
       let s := runProgram s0 ins
-      s!"tie={if s.tie then 1 else 0} pending=" ++ showNats (s.waiting.map (·.1)) ++
+      s!"tie={if s.tie then 1 else 0} fuel={if programDone s0 ins then 1 else 0} pending=" ++ showNats (s.waiting.map (·.1)) ++
         " outs=" ++ ";".intercalate (s.outs.map encOut)
   | _, _, _, _, _, _, _, _, _, _ => "bad-op"
 
